@@ -14,7 +14,7 @@ pub fn spec() -> PropSpec {
     PropSpec {
         id: "C12",
         level: "exploration",
-        rule: "access ops: all solution sets of 1..3 solutions over predicate-data shapes {[],[[]],[[1]],[[1,2,3]],[[1],[2,3]]} x every index x operands (slot, offset, len) in {-1,0,1,2,3,4,MAX}^3; PredicateExists: every set x {hash of each solution's documented pre-image, one word perturbed, slots without length prefix, contract/predicate swapped}; Sha256: every byte length 0..=72 (thorough 0..=264) x 3 fill patterns plus bad lengths; VerifyEd25519: 3 keys x message lengths 0..=33 (thorough 0..=72) x {valid, every single-byte corruption of signature/key/message, wrong length word}, non-point key, small-order key with R=identity,s=0; RecoverSecp256k1: 3 keys x 3 digests x recovery ids {-1,0,1,2,3,4,2^31} x {valid, single-bit flips of the signature (quick: every 8th bit), five zero words, r=0, r>=n}. Oracle: real sync::step_op vs the reference step (direct slicing, sha2, ed25519-dalek, essential-sign) on the complete stack; plus essential_hash::hash_bytes/hash_words agreement. non-trivial = the real op succeeded; distinct by (solutions, index, stack, op)",
+        rule: "access ops: all solution sets of 1..3 solutions over predicate-data shapes {[],[[]],[[1]],[[1,2,3]],[[1],[2,3]]} x every index x operands (slot, offset, len) in {-1,0,1,2,3,4,MAX}^3; PredicateExists: every set x {hash of each solution's documented pre-image, one word perturbed, slots without length prefix, contract/predicate swapped}; Sha256: every byte length 0..=72 (thorough 0..=264) x 3 fill patterns plus bad lengths; VerifyEd25519: 3 keys x message lengths 0..=33 (thorough 0..=72) x {valid, every single-byte corruption of signature/key/message, wrong length word}, non-point key, small-order key with R=identity,s=0; RecoverSecp256k1: 3 keys x 3 digests x recovery ids {-1,0,1,2,3,4,2^31} x {valid, single-bit flips of the signature (quick: every 8th bit), five zero words, r=0, r>=n, s>=n, the high-S twin (r, n-s)}. Oracle: real sync::step_op vs the reference step (direct slicing, sha2, ed25519-dalek, essential-sign) on the complete stack; plus essential_hash::hash_bytes/hash_words agreement. non-trivial = the real op succeeded; distinct by (solutions, index, stack, op)",
         assumptions: &["keys, digests and messages come from small fixed pools: structural dimensions exhausted, 2^256 value spaces not"],
         run,
         replay,
@@ -261,6 +261,21 @@ fn ed(cfg: &RunCfg, rep: &mut Report) {
     }
 }
 
+/// n - s for the secp256k1 group order n (big-endian, 32 bytes; 0 < s < n).
+fn order_minus(s: &[u8]) -> [u8; 32] {
+    const N: [u8; 32] = [
+        0xFF, 0xFF, 0xFF, 0xFF, 0xFF, 0xFF, 0xFF, 0xFF, 0xFF, 0xFF, 0xFF, 0xFF, 0xFF, 0xFF, 0xFF, 0xFE, 0xBA, 0xAE, 0xDC, 0xE6, 0xAF, 0x48, 0xA0, 0x3B, 0xBF, 0xD2, 0x5E, 0x8C, 0xD0, 0x36, 0x41, 0x41,
+    ];
+    let mut out = [0u8; 32];
+    let mut borrow = 0i16;
+    for i in (0..32).rev() {
+        let d = N[i] as i16 - s[i] as i16 - borrow;
+        borrow = if d < 0 { 1 } else { 0 };
+        out[i] = (d + if d < 0 { 256 } else { 0 }) as u8;
+    }
+    out
+}
+
 fn secp(cfg: &RunCfg, rep: &mut Report) {
     use secp256k1::{Message, Secp256k1, SecretKey};
     let g = graph(vec![sol(0, vec![])], 0);
@@ -304,6 +319,11 @@ fn secp(cfg: &RunCfg, rep: &mut Report) {
                 sbig[32..].fill(0xFF);
                 step(&g, mk(&digest, &sbig, id), &op, rep);
                 step(&g, mk(&digest, &[0u8; 64], id), &op, rep);
+                // the malleated twin (r, n - s): a well-formed high-S signature; with the parity bit
+                // of the recovery id flipped it recovers the signer's key, and every id is tried
+                let mut twin = sig;
+                twin[32..].copy_from_slice(&order_minus(&sig[32..]));
+                step(&g, mk(&digest, &twin, id), &op, rep);
             }
             // too few operands
             step(&g, vec![1, 2, 3], &op, rep);
